@@ -1080,7 +1080,7 @@ fn main() {
             None => {}
         }
     }
-    let n_hist: usize = arg_value(&args, "--histories").and_then(|s| s.parse().ok()).unwrap_or_else(|| ctx.pick(2500, 40_000));
+    let n_hist: usize = arg_value(&args, "--histories").and_then(|s| s.parse().ok()).unwrap_or_else(|| ctx.pick(6000, 40_000));
     let threads: usize = arg_value(&args, "--threads").and_then(|s| s.parse().ok()).unwrap_or(16);
     let wall_cap = ctx.pick(75.0, 520.0);
 
